@@ -393,7 +393,75 @@ func bitmapBits(bm []byte) int {
 	return n
 }
 
+// significant bits of a proof bitmap (leading zero bits stripped), most significant first
+func bitmapBools(bm []byte) []bool {
+	var out []bool
+	seen := false
+	for _, b := range bm {
+		for j := 0; j < 8; j++ {
+			bit := b&(0x80>>uint(j)) != 0
+			if seen {
+				out = append(out, bit)
+			} else if bit {
+				seen = true
+				out = append(out, true)
+			}
+		}
+	}
+	return out
+}
+
+func boolsToBitmap(bits []bool) []byte {
+	n := (len(bits) + 7) / 8
+	out := make([]byte, n)
+	pad := n*8 - len(bits)
+	for i, b := range bits {
+		if b {
+			pos := pad + i
+			out[pos/8] |= 0x80 >> uint(pos%8)
+		}
+	}
+	return out
+}
+
 var tampers = []tamper{
+	// ---- a second, forged query one level below an honest one, fed with junk sibling hashes:
+	// its computed ancestor coincides with the honest query's node (two fields + siblings change)
+	{"forged-deeper-query-with-junk-siblings", func(r *rand.Rand, qk [][]byte, p *smt.Proof, x *tctx) ([][]byte, *smt.Proof) {
+		if len(p.Queries) != 1 || len(qk) != 1 {
+			return nil, nil
+		}
+		hq := p.Queries[0]
+		hb := bitmapBools(hq.Bitmap)
+		if len(hb)+1 >= 8*x.L {
+			return nil, nil
+		}
+		fk := cp(hq.Key)
+		// same first len(hb) bits, different afterwards
+		setBit(fk, len(hb), !getBit(fk, len(hb)))
+		for b := len(hb) + 1; b < 8*x.L; b++ {
+			setBit(fk, b, r.Intn(2) == 0)
+		}
+		if _, present := x.model[string(fk)]; present {
+			return nil, nil
+		}
+		junk := func() []byte { return randBytes(r, 32) }
+		sib := []codec.Hex{junk()}
+		n := 0
+		for _, b := range hb {
+			if b {
+				if n >= len(p.SiblingHashes) {
+					return nil, nil
+				}
+				sib = append(sib, p.SiblingHashes[n], junk())
+				n++
+			}
+		}
+		forged := &smt.QueryProof{Key: fk, Value: randBytes(r, 32), Bitmap: boolsToBitmap(append([]bool{true}, hb...))}
+		p.SiblingHashes = sib
+		p.Queries = append(p.Queries, forged)
+		return append(qk, fk), p
+	}},
 	// ---- value
 	{"value-flip-bit", func(r *rand.Rand, qk [][]byte, p *smt.Proof, x *tctx) ([][]byte, *smt.Proof) {
 		i := pickQ(r, p, func(_ int, q *smt.QueryProof) bool { return len(q.Value) > 0 })
